@@ -81,7 +81,11 @@ func (f *OrefaFile) Chmod(mode fs.FileMode) error {
 		return &fs.PathError{Op: op, Path: f.name, Err: fs.ErrClosed}
 	}
 
-	f.nd.setMode(mode)
+	nd := f.nd
+
+	nd.mu.Lock()
+	nd.setMode(mode)
+	nd.mu.Unlock()
 
 	return nil
 }
@@ -113,7 +117,11 @@ func (f *OrefaFile) Chown(uid, gid int) error {
 		return &fs.PathError{Op: op, Path: f.name, Err: avfs.ErrWinNotSupported}
 	}
 
-	f.nd.setOwner(uid, gid)
+	nd := f.nd
+
+	nd.mu.Lock()
+	nd.setOwner(uid, gid)
+	nd.mu.Unlock()
 
 	return nil
 }
